@@ -387,7 +387,7 @@ example :
   stack-argument (SA) variable. -/
 theorem shuffle_regphase_correct (p : C06S.Params) (hy : C06S.Hyp p) (e : Emit) (M : State) (hw : C06S.WF p e M)
     (fuel : Nat) (e' : Emit) (h : shuffleLoop p.cfg p.n fuel e {} = .ok e') :
-    ∃ M', run p.vis p.f.saOffSp p.f.saOffSa (spId p.cfg.arch) p.M0 e'.out = some M' ∧
+    ∃ M', run p.vis p.f p.cfg.arch p.M0 e'.out = some M' ∧
       ∀ i, i < p.n → destOk M' i (.reg (groupOf (p.out i).regType) (p.out i).regId) = true :=
   C06S.regphase_correct p hy e M hw fuel e' h
 
@@ -427,6 +427,15 @@ theorem shuffle_same_reg_conv_witness :
   have := h 0 (by decide) (by decide +kernel)
   revert this
   decide +kernel
+
+/-- K8 (termination): AArch64, dynamically aligned frame without frame pointer, `x0 -> x1` while `x1` is the register picked for the
+    stack-arguments base pointer: the model exhausts every fuel (one futile move per pass) – the real code never returns. -/
+theorem shuffle_a64_sa_livelock_witness :
+    let fr : FrameIn := ⟨false, true, 1, -1, 0, [12799, 0, 0, 0], [2147221504, 65280, 0, 0]⟩
+    let vals := [(FuncValue.reg 40 6 0, some (FuncValue.reg 0 6 1)), (FuncValue.stack 40 0, some (FuncValue.reg 0 6 9)),
+                 (FuncValue.stack 40 8, some (FuncValue.reg 0 6 10))]
+    let r := emitArgsAssignment { arch := .a64 } fr 255 vals
+    r.1.isSome = true ∧ r.2.length = 16 ∧ r.2.all (fun i => i.name == .mov) = true := by decide +kernel
 
 /-! non-vacuity: the 2-cycle `rdi -> rsi, rsi -> rdi` of two int64 arguments on x86-64 satisfies every hypothesis, the model returns
     kOk, and the initial context `init_work_data` builds for it satisfies the invariant `WF` -/
